@@ -5,7 +5,10 @@ EXTENDS CodecLife, Pools
 VARIABLES stage, bi, pos, ty, crit, blen, second, adj
 
 Bases == << << >>, << Rep("N") >>, << Rep("SA"), Rep("KE") >>, << Rep("IDi"), Rep("AUTH"), Rep("TSi") >>,
-            << Rep("EAP") >>, << Rep("CP"), Rep("D"), Rep("V"), Rep("CERT") >> >>
+            << Rep("EAP") >>, << Rep("CP"), Rep("D"), Rep("V"), Rep("CERT") >>,
+            \* chains that OPEN with a Notify of protocol meaning (error types 14, 17, 24; COOKIE): the rule for unsupported payloads does not
+            \* depend on what the message is about
+            << Nt(14, 0) >>, << Nt(17, 2), Rep("KE") >>, << Nt(24, 0), Rep("N") >>, << Nt(16390, 16), Rep("SA"), Rep("KE"), Rep("NONCE") >> >>
 Base(i) == Msg(IF i % 2 = 0 THEN 1 ELSE 4, Bases[i])
 UnsupportedTypes == (1..32) \cup (49..255)
 LenPool == IF Thorough THEN {0, 1, 2, 3, 4, 7, 8, 255, 256, 1023, 1024} ELSE {1, 7, 1024}
